@@ -35,6 +35,9 @@ type inFlightRequestsHandler struct {
 	maxPending   int
 	timeout      time.Duration
 	streamIds    chan int16
+	// idsLock is held (shared) by whoever borrows or releases a stream id, and (exclusively) by close while it closes
+	// the streamIds channel: a release never meets a channel that is being closed.
+	idsLock      *sync.RWMutex
 	inFlight     map[int16]*inFlightRequest
 	inFlightLock *sync.RWMutex
 	closed       int32
@@ -58,6 +61,7 @@ func newInFlightRequestsHandler(
 		maxPending:   maxPending,
 		timeout:      timeout,
 		streamIds:    make(chan int16, maxInFlight),
+		idsLock:      &sync.RWMutex{},
 		inFlight:     make(map[int16]*inFlightRequest, maxInFlight),
 		inFlightLock: &sync.RWMutex{},
 	}
@@ -167,6 +171,8 @@ func (h *inFlightRequestsHandler) borrowStreamId() (int16, error) {
 	if h.isClosed() {
 		return -1, fmt.Errorf("%v: handler closed", h)
 	}
+	h.idsLock.RLock()
+	defer h.idsLock.RUnlock()
 	select {
 	case id, ok := <-h.streamIds:
 		if !ok {
@@ -183,6 +189,8 @@ func (h *inFlightRequestsHandler) releaseStreamId(id int16) error {
 	if h.isClosed() {
 		return fmt.Errorf("%v: handler closed", h)
 	}
+	h.idsLock.RLock()
+	defer h.idsLock.RUnlock()
 	select {
 	case h.streamIds <- id:
 		log.Debug().Msgf("%v: released stream id: %v", h, id)
@@ -209,9 +217,11 @@ func (h *inFlightRequestsHandler) close() {
 			inFlight.close(fmt.Errorf("%v: handler closed", h))
 		}
 		h.inFlightLock.Unlock()
+		h.idsLock.Lock()
 		streamIds := h.streamIds
 		h.streamIds = nil
 		close(streamIds)
+		h.idsLock.Unlock()
 		log.Trace().Msgf("%v: successfully closed", h)
 	}
 }
